@@ -406,3 +406,27 @@ Example delete_text_rejects_example :
     delete_text fo re_match fmt_v "delete where key = 'a' limit 1 order by key" 2 s = (TReject 31%Z, s) /\
     delete_text fo re_match fmt_v "delete where key = 'a' limit" 2 s = (TReject (-1)%Z, s).
 Proof. intros. repeat split; vm_compute; reflexivity. Qed.
+
+(* ================================================================== MACHINE INTEGERS
+   (appended; Model/Limit64.v delete_limit64 = DeletePlan.execute over LimitPlan.Batch with the
+   Go ints as int64 with wrap-around, Proofs/Limit64Proofs.v).  DELETE ... LIMIT s, n for every
+   0 <= s, n < 2^63, every PlanBatchSize and every scan output [bs] (non-empty batches, fewer than
+   2^63 pairs): the batches handed to BatchDelete are non-empty, their concatenation is exactly
+   rows s .. s+n-1 of the scan's output, and the number DeletePlan reports (count += nrows) is
+   their number -- no wrap-around anywhere. *)
+From KV Require Import Base.Num Model.Limit64 Proofs.Limit64Proofs Proofs.LimitProofs.
+
+Theorem delete_limit_machine_keys : forall (A : Type) (B s n : Z) (bs : list (list A)),
+  (0 <= s < 2 ^ 63)%Z -> (0 <= n < 2 ^ 63)%Z -> (Z.of_nat (tot bs) < 2 ^ 63)%Z ->
+  Forall nonempty bs ->
+  exists outs, delete_limit64 B s n bs = Some (outs, Z.of_nat (tot outs)) /\
+               List.concat outs = firstn (Z.to_nat n) (skipn (Z.to_nat s) (List.concat bs)) /\
+               Forall nonempty outs.
+Proof. exact delete_limit_machine. Qed.
+Print Assumptions delete_limit_machine_keys.
+
+Example delete_limit_machine_extremes :
+  delete_limit64 2 1 (2 ^ 63 - 1)%Z [[1; 2]; [3]; [4; 5; 6]]%nat%list
+    = Some ([[2; 3]; [4; 5; 6]]%nat%list, 5%Z) /\
+  delete_limit64 2 (2 ^ 63 - 1)%Z (2 ^ 63 - 1)%Z [[1; 2]; [3]; [4; 5; 6]]%nat%list = Some ([], 0%Z).
+Proof. split; vm_compute; reflexivity. Qed.
